@@ -50,7 +50,13 @@ OPT_SECTION7 = ("# Options:\n"
                 "#   --ip=<a.b.c.d>              Address.\n"
                 "#   -o FILE.EXT, --out=FILE.EXT  Output.\n"
                 "#   -q                          Quiet.\n")
-TABLES = {"T7": (OPTS7, OPT_SECTION7), "T6": (OPTS6, OPT_SECTION6), True: (OPTS, OPT_SECTION), "T2": (OPTS2, OPT_SECTION2), "T3": (OPTS3, OPT_SECTION3), "T4": (OPTS4, OPT_SECTION4), "T5": (OPTS5, OPT_SECTION5)}
+# defaults that contain brackets themselves
+OPTS8 = [("s", "select", True, "items[0]"), (None, "range", True, "[1, 2]"), ("q", None, False, None)]
+OPT_SECTION8 = ("# Options:\n"
+                "#   -s, --select=<expr>  What to select [default: items[0]]\n"
+                "#   --range=<r>          Range [default: [1, 2]]\n"
+                "#   -q                   Quiet.\n")
+TABLES = {"T8": (OPTS8, OPT_SECTION8), "T7": (OPTS7, OPT_SECTION7), "T6": (OPTS6, OPT_SECTION6), True: (OPTS, OPT_SECTION), "T2": (OPTS2, OPT_SECTION2), "T3": (OPTS3, OPT_SECTION3), "T4": (OPTS4, OPT_SECTION4), "T5": (OPTS5, OPT_SECTION5)}
 
 
 def opts_of(wo):
@@ -357,6 +363,22 @@ def family_usages():
     for l in ([sq(grp(alt(sq(a, opt(alt(b, cc))), dd)))], [sq(grp(alt(sq(a, grp(alt(b, cc))), dd)))], [sq(opt(alt(sq(a, grp(alt(b, cc))), dd)), x)], [sq(grp(alt(grp(alt(a, b)), cc)))],
               [sq(grp(alt(a, grp(alt(b, cc)))))], [sq(opt(alt(sq(grp(alt(a, b)), x), cc)))], [sq(grp(alt(sq(a, opt(b)), dd)))], [sq(grp(alt(a, sq(b, opt(alt(cc, dd))))), opt(x))]):
         out.append((l, False, av19))
+    # F20: defaults that contain `]`
+    t20 = ['-s', 'w', '--select=w', '-sw', '--range=w', '--range', '-q', 'v', 'a']
+    av20 = [list(t) for n in range(0, 4) for t in itertools.product(t20, repeat=n) if len(set(t)) == len(t)]
+    sel, rg = o('select', '--select=<expr>'), o('range', '--range=<r>')
+    for l in ([sq(('anyopts',), opt(x))], [sq(opt(sel), opt(rg), opt(x))], [sq(a, ('anyopts',))]):
+        out.append((l, "T8", av20))
+    # F21: alternations of three and four branches, the later branches of several words
+    av21 = [list(t) for n in range(0, 4) for t in itertools.product(['a', 'b', 'c', 'd', 'v', 'w'], repeat=n)]
+    for l in ([sq(grp(alt(sq(a, x), sq(b, x), cc)))], [sq(grp(alt(a, sq(b, x), sq(cc, x, y))))], [sq(grp(alt(sq(a, x), b, sq(cc, y), dd)))], [sq(opt(alt(sq(a, x), sq(b, y), cc)))],
+              [sq(grp(alt(a, b, sq(cc, opt(x)))))], [sq(grp(alt(a, b, cc)), grp(alt(sq(dd, x), y)))]):
+        out.append((l, False, av21))
+    # F22: a FLAG written with `=value` (K52: the value used to become a positional) beside valued options
+    t22 = ['--force=w', '--force=', '--force', '-q=w', '--out=w', '--out=', 'w', 'v', '--level=--force', '-f=w']
+    av22 = [list(t) for n in range(0, 4) for t in itertools.product(t22, repeat=n) if len(set(t)) == len(t) and sum(1 for w in t if w.startswith('-')) <= 2]
+    for l in ([sq(opt(f), x)], [sq(('anyopts',), opt(x))], [sq(opt(f), opt(oo), ('rep', x))], [sq(a, opt(f), opt(x))]):
+        out.append((l, True, av22))
     # F5: upper-case positionals, `<x> ...` with a blank before the dots
     F, G = ('pos', 'FILE'), ('pos', 'MY-ARG')
     av5 = [list(t) for n in range(0, 5) for t in itertools.product(['a', 'v', 'w'], repeat=n)]
